@@ -204,7 +204,7 @@ fn sess_of(base: &str, tok: &str) -> Option<(bool, bool)> {
     match tok.strip_prefix(base)? { "" => Some((true, false)), "2" => Some((false, false)), "a" => Some((true, true)), "2a" => Some((false, true)), _ => None }
 }
 
-fn session(four: bool, ap: bool) -> SessionConfig {
+pub(crate) fn session(four: bool, ap: bool) -> SessionConfig {
     let mut sc = if four { SessionConfig::modern() } else { SessionConfig::legacy() };
     if ap { for k in ALL_FAMS { sc.add_addpath_rxtx(AfiSafiType::from(k)); } }
     sc
@@ -1141,7 +1141,7 @@ fn gen_conv(rng: &mut Rng, ap: bool, min: usize, max: usize) -> Vec<u8> {
 
 /// an UPDATE that routecore accepts in a session of the given kind; `want_conv`/`want_mp`
 /// steer what it announces
-fn gen_pdu_s(rng: &mut Rng, want_conv: bool, want_mp: bool, four: bool, ap: bool) -> Vec<u8> {
+pub(crate) fn gen_pdu_s(rng: &mut Rng, want_conv: bool, want_mp: bool, four: bool, ap: bool) -> Vec<u8> {
     let wd = if rng.chance(1, 4) { gen_conv(rng, ap, 0, 2) } else { vec![] };
     let mut attrs: Vec<Vec<u8>> = Vec::new();
     let mut codes: Vec<u8> = vec![1, 2];
@@ -1203,7 +1203,7 @@ fn gen_pdu_s(rng: &mut Rng, want_conv: bool, want_mp: bool, four: bool, ap: bool
 /// Nothing is filtered: Unimplemented with EXTENDED_LEN on a short value, Invalid > 255 bytes and
 /// MP_REACH_NLRI shorter than 5 bytes all go through (model and code agree on them since the
 /// fixes F7, F8 and 40c5314).
-fn mutate_attrs(rng: &mut Rng, pdu: Vec<u8>) -> Vec<u8> {
+pub(crate) fn mutate_attrs(rng: &mut Rng, pdu: Vec<u8>) -> Vec<u8> {
     let wl = u16::from_be_bytes([pdu[19], pdu[20]]) as usize;
     let p = 21 + wl;
     if p + 2 > pdu.len() { return pdu; }
@@ -1291,7 +1291,7 @@ fn grid_attr(rng: &mut Rng, code: u8, malformed: bool, enc: u8, four: bool) -> O
     Some(wire_attr(ref_flags(code).unwrap(), code, &val, enc != 0))
 }
 
-fn gen_sess(rng: &mut Rng) -> (&'static str, bool, bool) {
+pub(crate) fn gen_sess(rng: &mut Rng) -> (&'static str, bool, bool) {
     match rng.below(10) { 0..=4 => ("", true, false), 5..=6 => ("2", false, false), 7..=8 => ("a", true, true), _ => ("2a", false, true) }
 }
 
